@@ -190,6 +190,11 @@ func judge(c c04Case) (string, error) {
 			}
 			return stRejectedTrace, nil
 		}
+		if !c.Expect.ValidKnownReject && os.Getenv("VERIF_C04_REJECT_OK") == "" {
+			// the model says the program is valid and none of the listed C05/C06 shapes applies:
+			// a diagnostic here blames something the IDL does not contain
+			return "", fmt.Errorf("valid program: %s is rejected (exit %d) although the program is well-formed and has none of the input shapes of the listed C05/C06 findings:\n%s", cmd, r.Exit, vt.Truncate(lastNonWarn(r.Output), 1200))
+		}
 		return stRejected, nil
 	}
 
